@@ -52,6 +52,12 @@ def run(tier):
             name = "%s[%s]" % (name, ">".join(ctx))
             ck.count("nested_programs")
         plist.append({"name": "%s/%d" % (name, i), "steps": [("snip", src)], "mods": mods})
+    # size ladders: this property's sized things at every size of a ladder straddling powers of two (vfpy/gen/feat_scale.py)
+    from ..gen import feat_scale as _scale
+    for _p in _scale.programs("C04", ck.rng.fork("scale"), quick):
+        ck.count("scale_programs")
+        ck.count("scale_template_" + _p["scale"][0])
+        plist.append(_p)
     checked, discarded = modelcheck.check_programs(ck, plist, opts=opts, on_result=seen)
     ck.coverage["profile_programs_checked"] = checked
     # ---- the limits family
